@@ -578,7 +578,10 @@ impl<K: Kmer, D: Debug> DebruijnGraph<K, D> {
         }
 
         for (target, dir, _) in node.r_edges() {
-            if target > node.node_id as usize {
+            // a right-side hairpin (this node's right end linked to itself) is seen from this side only
+            if target > node.node_id as usize
+                || (target == node.node_id as usize && matches!(dir, Dir::Right))
+            {
                 let to_dir = match dir {
                     Dir::Left => "+",
                     Dir::Right => "-",
